@@ -445,3 +445,5 @@ M("C18", "interplin-integer-inputs-not-converted", [(SU, "    if v.dtype.kind in
 M("C04", "text-write-assumes-one-byte-order", [(RU, "            native_dtype = dataview.dtype.newbyteorder(\"=\")\n            if native_dtype != dataview.dtype:\n                dataview = dataview.astype(native_dtype)\n",
                                                 "            if _needs_byteswap(dataview):\n                dataview = dataview.copy()\n                to_native_inplace(dataview)\n")],
   "the repair 4e02795 reverted: a table mixing byte orders is written with its big-endian fields uninterpreted")
+M("C17", "integrate-data-ends-in-table-dtype", [(IU, "        x1 = float(xvals.min())\n        x2 = float(xvals.max())\n", "        x1 = xvals.min()\n        x2 = xvals.max()\n")],
+  "the repair 1eac7fd reverted: for a uint8 table x2 + x1 wraps around")
